@@ -77,6 +77,12 @@ func (g *tplGen) expr(depth int) string {
 		body := hx.Pick(g.r, []string{"x & x", "array(x, x)", "object(\"a\", x, \"b\", x)", "x & \"-\" & x", "array(x, 1, x)", "join(array(x, x), x)", "replace(x, \"a\", x)", "x + x", "x * x", "concat(x, x)", "concat(x, array(x))", "url_encode(x & \"é\")", "title(x) & upper(x)"})
 		seed := hx.Pick(g.r, []string{"\"a\"", "1", "array(1)", "array(1, 2)", "contact.name", "\"\"", "2"})
 		use := hx.Pick(g.r, []string{"text_length(%s)", "text(%s)", "json(%s)", "count(%s)", "format(%s)", "%s = 1", "unique(array(%s, %s))", "is_error(%s)", "%s", "contains(array(%s), 1)", "sort(array(%s, %s))"})
+		if g.r.Intn(4) == 0 {
+			// applied 4^a * 16^b times instead, by Church numerals, which is how a value gets deep
+			body = hx.Pick(g.r, []string{"array(x)", "object(\"a\", x)", "array(1, x)", "array(x, 1)", "object(\"k\", 1, \"a\", x)", "x & \"a\"", "x + 1", body})
+			iter := hx.Pick(g.r, []string{"q(q(q(t(t)(w))))", "q(q(t(t)(w)))", "q(q(q(w)))", "q(t(t)(w))", "t(t)(q(q(w)))", "q(q(q(q(w))))"})
+			return "((t, w) => ((q) => " + strings.ReplaceAll(use, "%s", iter+"("+seed+")") + ")(t(t)(t)))((f) => (x) => f(f(x)), (x) => " + body + ")"
+		}
 		return "((d) => " + strings.ReplaceAll(use, "%s", strings.Repeat("d(", k)+seed+strings.Repeat(")", k)) + ")((x) => " + body + ")"
 	case 12:
 		// an anonymous function applied on the spot, possibly to itself or to another function value
@@ -178,6 +184,16 @@ func tplCorpus() []string {
 		"@(((d) => format("+dd(30, "1")+"))((x) => array(x, x)))", "@(((d) => contains(array("+dd(40, "1")+"), 1))((x) => array(x, x)))",
 		"@(has_pattern(repeat(\"a\", 100000), repeat(\"(a?){1000}\", 50) & \"b\"))", "@(regex_match(repeat(\"a\", 100000), repeat(\"(a?){1000}\", 50) & \"b\"))",
 		"@(has_pattern(repeat(\"a\", 1000), repeat(\"(a?){1000}\", 100)))", "@(((d) => text_length("+dd(10, "\"x\"")+"))((x) => x & x))")
+	// values that are small and DEEP: a one-item wrapper applied 16384 times by Church numerals (a 100 character template);
+	// every level of conversion puts together the text of all the levels below it. Long property names, doubled.
+	for _, use := range []string{"json", "text", "format", "count", "is_error"} {
+		for _, wrap := range []string{"array(x)", "object(\"a\", x)", "array(1, x)"} {
+			lits = append(lits, "@(((t, w) => ((q) => "+use+"(q(q(q(t(t)(w))))(1)))(t(t)(t)))((f) => (x) => f(f(x)), (x) => "+wrap+"))")
+		}
+	}
+	lits = append(lits, "@(((t, w) => ((q) => q(q(q(t(t)(w))))(1) = q(q(q(t(t)(w))))(1))(t(t)(t)))((f) => (x) => f(f(x)), (x) => array(x)))",
+		"@(((d) => json("+dd(14, "1")+"))((x) => object(repeat(\"k\", 50000), x, \"b\", x)))", "@(((d) => text("+dd(14, "1")+"))((x) => object(repeat(\"k\", 50000), x, \"b\", x)))",
+		"@(json("+strings.Repeat("array(", 200)+"repeat(\"a\", 90000)"+strings.Repeat(")", 200)+"))", "@(format("+strings.Repeat("array(", 200)+"repeat(\"a\\n\", 40000)"+strings.Repeat(")", 200)+"))")
 	// very deep nesting: parentheses, unary minus, operator and lookup chains (the generated parser, the visitor and
 	// Evaluate recurse once per level)
 	lits = append(lits, "@("+strings.Repeat("(", 600000)+"1"+strings.Repeat(")", 600000)+")", "@("+strings.Repeat("-", 1500000)+"1)", "@("+strings.Repeat("1+", 300000)+"1)",
